@@ -47,14 +47,17 @@ pub struct ValueRef<'v> {
     ty: &'v Arc<Final>,
 }
 
-// Because two equal values may have different bit offsets, we must manually
-// implement the comparison traits. We do so by first comparing types, which
-// is constant overhead (this just compares TMRs). If those match, we know
-// the lengths and structures match, so we then compare the underlying byte
-// iterators.
+// Two equal values may be stored differently: at different bit offsets, next to
+// different neighbours in a shared buffer, or with different bits in the padding
+// of their sum types (padding is kept verbatim by `from_padded_bits`, and hence
+// by the Bit Machine). None of this is part of the value, so we must manually
+// implement the comparison traits. We do so by first comparing types, which is
+// constant overhead (this just compares TMRs). If those match, we compare the
+// bits that carry meaning: the compact encoding, which for types without padding
+// is just the padded encoding.
 impl PartialEq for Value {
     fn eq(&self, other: &Self) -> bool {
-        self.ty == other.ty && self.raw_byte_iter().eq(other.raw_byte_iter())
+        self.ty == other.ty && self.canonical_bytes().eq(other.canonical_bytes())
     }
 }
 impl Eq for Value {}
@@ -68,7 +71,7 @@ impl Ord for Value {
     fn cmp(&self, other: &Self) -> core::cmp::Ordering {
         self.ty
             .cmp(&other.ty)
-            .then_with(|| self.raw_byte_iter().cmp(other.raw_byte_iter()))
+            .then_with(|| self.canonical_bytes().cmp(other.canonical_bytes()))
     }
 }
 
@@ -76,9 +79,45 @@ impl core::hash::Hash for Value {
     fn hash<H: core::hash::Hasher>(&self, h: &mut H) {
         b"Simplicity\x1fValue".hash(h);
         self.ty.hash(h);
-        for val in self.raw_byte_iter() {
+        for val in self.canonical_bytes() {
             val.hash(h);
         }
+    }
+}
+
+/// The bits of a value that carry meaning, packed into bytes (most significant
+/// bit first, last byte padded with zeroes).
+///
+/// Within one type the compact encoding is prefix-free, so two values of the same
+/// type are equal if and only if these byte sequences are equal.
+struct CanonicalBytes<'v> {
+    bits: CanonicalBits<'v>,
+}
+
+enum CanonicalBits<'v> {
+    /// The type has no padding: every bit of the padded encoding carries meaning.
+    Padded(PreOrderIter<'v>),
+    /// The type has padding, which the compact encoding skips.
+    Compact(CompactBitsIter<'v>),
+}
+
+impl Iterator for CanonicalBytes<'_> {
+    type Item = u8;
+
+    fn next(&mut self) -> Option<u8> {
+        let mut next_bit = || match self.bits {
+            CanonicalBits::Padded(ref mut iter) => iter.next(),
+            CanonicalBits::Compact(ref mut iter) => iter.next(),
+        };
+
+        let mut byte = u8::from(next_bit()?) << 7;
+        for i in 1..8 {
+            match next_bit() {
+                Some(bit) => byte |= u8::from(bit) << (7 - i),
+                None => break,
+            }
+        }
+        Some(byte)
     }
 }
 
@@ -727,6 +766,17 @@ impl Value {
     /// This encoding is used for writing witness data and for computing IHRs.
     pub fn iter_compact(&self) -> CompactBitsIter<'_> {
         self.as_ref().iter_compact()
+    }
+
+    /// Yields the bytes used to compare and hash values.
+    fn canonical_bytes(&self) -> CanonicalBytes<'_> {
+        CanonicalBytes {
+            bits: if self.ty.has_padding() {
+                CanonicalBits::Compact(self.iter_compact())
+            } else {
+                CanonicalBits::Padded(self.iter_padded())
+            },
+        }
     }
 
     /// Return an iterator over the padded bit encoding of the value.
